@@ -202,6 +202,12 @@ def nullable_body_case(rng):
         prods.append([2 + i, [["T", 1 + i]]])
         if rng.random() < 0.85:
             prods.append([2 + i, []])
+    if rng.random() < 0.3:
+        # left recursion behind / through nullable variables: A -> A t,  or a component that recurses on itself
+        v = rng.choice([1] + [2 + i for i in range(k)])
+        prods.append([v, [["V", v], ["T", nt - 1]]])
+    if rng.random() < 0.25:
+        prods.append([1, [["V", 2], ["T", 0], ["V", 2]]])                    # the same symbol twice in one body
     r = rng.random()
     if r < 0.3:
         prods.append([1, [["T", rng.randint(1, k)], ["T", nt - 1]]])      # conflict on some component's first
